@@ -156,6 +156,7 @@ def execute(scenario, chooser):
     pol = scenario['policy']
     sim = core.Sim(chooser, gran=pol['gran'], step_cap=60000)
     sim.stall_enabled = False
+    sim.fairness = 400
     hist = History()
     state = {'running': 0, 'viol': [], 'agents': {}, 'jobs': {}}
 
